@@ -72,6 +72,7 @@ def gen_dataset_cfg(rng, flavor='general', big=False):
     cfg['dtypes']['chmap'] = rng.choice(['int32', 'uint32', 'int64'])
     cfg['dtypes']['find'] = rng.choice(['uint32', 'int32', 'int64'])
     cfg['dtypes']['tmpl'] = rng.choice(['float32', 'float32', 'float64'])
+    cfg['dtypes']['feat'] = rng.choice(['float32', 'float32', 'float64'])
     for fam in ('times', 'stemplates', 'sclusters', 'amps', 'chmap'):
         if rng.random() < 0.3:
             cfg['colvec'].append(fam)
@@ -140,6 +141,10 @@ def gen_dataset_cfg(rng, flavor='general', big=False):
         cfg['sparse'] = rng.random() < 0.45
         if cfg['sparse']:
             cfg['nloc_t'] = rng.randint(2, nc)
+        elif cfg['unused_templates'] and rng.random() < 0.4:
+            # KiloSort leaves all-NaN templates for unused ids; the loader zeroes them
+            cfg['poison'].append({'name': 'tmpl', 'kind': 'nan_template',
+                                  'ids': cfg['unused_templates'][:2]})
     elif flavor == 'probe':
         cfg['colvec'] = [f for f in cfg['colvec'] if f in ('times', 'stemplates', 'amps')]
         p.update({'sclusters': True, 'amps': True, 'features': True, 'tfeatures': True,
